@@ -424,7 +424,10 @@ def k1(ck: Check, fm: FuncModel) -> None:
             # (a) documented exemption: NFVS empty and the node has child motifs
             nf = _nfvs_var(fm)
             if nf is not None:
-                ex = logic.And(logic.Not(logic.Lt("0", f"len({nf})")), logic.Lt("0", "len(child_motifs_reduced)"))
+                cm = next((n_.targets[0].id for n_ in own_walk(f.node) if isinstance(n_, ast.Assign) and isinstance(n_.targets[0], ast.Name)
+                           and isinstance(n_.value, ast.ListComp) and any(isinstance(c_, ast.Call) and callee_name(c_) == "edge_stable_motif"
+                                                                          for c_ in ast.walk(n_.value))), "child_motifs_reduced")
+                ex = logic.And(logic.Not(logic.Lt("0", f"len({nf})")), logic.Lt("0", f"len({cm})"))
                 try:
                     if logic.implies(pc, ex):
                         ok = True
@@ -731,7 +734,9 @@ def k4(ck: Check) -> None:
             and s.targets[0].id == cb and isinstance(s.value, ast.Call) and callee_name(s.value) == "l_or"]
     hdr = fm.cfg.loop_header[loop]
     tr = logic.Translator(lambda e: text(e))
-    hit = logic.Or(logic.B(f"T:{cb}(simulation)"), logic.B(f"T:{avoid_p}(simulation)"))
+    SIM = next((text(c_.args[0]) for c_ in ast.walk(loop) if isinstance(c_, ast.Call) and isinstance(c_.func, ast.Name)
+                and c_.func.id in (cb, avoid_p) and len(c_.args) == 1), "simulation")   # the state of the random walk
+    hit = logic.Or(logic.B(f"T:{cb}({SIM})"), logic.B(f"T:{avoid_p}({SIM})"))
     if not keeps:
         probs.append("no state is ever kept")
     else:
@@ -797,7 +802,9 @@ def k4(ck: Check) -> None:
         for dnode in drops:
             pc = pc_text(fm, fm.cfgn(dnode))
             ats = {a[1] for a in logic.atoms(pc) if a[0] == "b"}
-            want = logic.Or(*[logic.B(t) for t in ats if t in (f"T:{cb2}(simulation)", f"T:{newb}(simulation)")]) if ats else logic.FALSE
+            SIM2 = next((text(c_.args[0]) for c_ in ast.walk(inner) if isinstance(c_, ast.Call) and isinstance(c_.func, ast.Name)
+                         and c_.func.id in (cb2, newb) and len(c_.args) == 1), "simulation")
+            want = logic.Or(*[logic.B(t) for t in ats if t in (f"T:{cb2}({SIM2})", f"T:{newb}({SIM2})")]) if ats else logic.FALSE
             if not logic.implies(pc, want):
                 probs.append(f"line {dnode.lineno}: a state is dropped without having reached another remaining or new candidate")
         adds = [s for s in inner.body if isinstance(s, ast.Assign) and isinstance(s.targets[0], ast.Name) and s.targets[0].id == newb
